@@ -510,6 +510,17 @@ def count_null(e):
     return e
 
 
+def exists_agg_empty(e):
+    """same decorrelation as count_null, seen through EXISTS: a CORRELATED global-aggregate subquery always has
+    one row, so EXISTS over it is TRUE; the engine's grouped aggregate has no row for an outer row without
+    partner rows.  = EXISTS (the rows feeding the aggregate)"""
+    if e[0] == "exists":
+        q = e[2]
+        if q[0] == "select" and q[3] != "-" and q[3][0] == [] and q[4] == "-" and query_correlated(q):
+            return ["exists", e[1], ["select", q[1], q[2], "-", "-", [["const", ["b", "1"]]], "0"]]
+    return e
+
+
 def _flat(e, head):
     if isinstance(e, list) and e and e[0] == head:
         return _flat(e[1], head) + _flat(e[2], head)
@@ -658,6 +669,7 @@ def dor_absorb_folded_nullcmp(e):
 KNOWN_REWRITES = {
     "in-subquery-two-valued": in2v,
     "correlated-scalar-aggregate-null-on-empty": count_null,
+    "correlated-scalar-aggregate-null-on-empty~exists": exists_agg_empty,
     "distributive-or-absorption": dor_absorb_folded,
     "distributive-or-absorption~nullcmp": dor_absorb_folded_nullcmp,
     "grouping-sets-empty-input-no-grand-total": ("block", gs_empty),
